@@ -11,7 +11,7 @@ from .ties_cond import MIN_ISA
 
 WS = [' ', ' ', '\t', '\x0c', '\x1c', '\x1f']
 PIECES = ['abc', 'x1', '42', '$ff', '+', '-', '(', ')', ',', ' ', ' ', '\t', ';', ';', '"', "'", '\\', '\\"', "\\'", '\\\\', '"a;b"', "'it;s'", '"q\\"r;"',
-          "'\\''", '"it\'s"', "'say \"hi\"'", '#', '.byte', ':', '\x0b', '""', "''", '"\\', "'\;"]
+          "'\\''", '"it\'s"', "'say \"hi\"'", '#', '.byte', ':', '\x0b', '""', "''", '"\\', "'\\;"]
 
 
 def gen_line_cases(rng, tier):
